@@ -428,7 +428,7 @@ let fam_ops : 'p. 'p fam -> profile -> string -> ts -> string = fun f prof op t 
     let (pi, pre) = ext (match r.Poll.rr_res with Some (Ok (_, p)) -> Some p | _ -> None) in
     Printf.sprintf "hdr=%s;block=%s;async=%s;aused=%s;poll=%s;ptotal=%s;pbody=%s;pused=%s;binv=%s;bre=%s;ainv=%s;are=%s;pinv=%s;pre=%s"
       h (sbres f.show b) a au pr pt pb pu bi bre ai are pi pre
-  | "sched" ->
+  | "sched" | "schedi" ->
     let atoms = atoms_of (next t) in
     let tl = tail_of (next t) in
     let r = f.poll_drive atoms tl in
@@ -677,7 +677,42 @@ let run_case (prof : profile) (line : string) : string =
                    | ROk (c, _) -> "ok v5 " ^ show5 (M5.Connect c)
                    | RErr e -> "err " ^ serr e | RPanic _ -> "PANIC")
                | Err e -> "err " ^ serr e | Panic _ -> "PANIC"))) in
-    Printf.sprintf "%s;resume=%s;rused=%s;wrong=%s" first (fst resume) (snd resume) wrong
+    (* poll front-end of the family under test on the whole slice; when it refuses, continue on the body it retained *)
+    let retained : 'p. 'p fam -> bytes option = fun f ->
+      let r = f.poll1 d TEof in
+      (match r.Poll.rr_res with
+       | Some (Err _) ->
+         (match r.Poll.rr_state with
+          | Poll.SBody (h, _, idx, buf) when int_of_n idx = L.length buf && buf <> [] -> Some buf
+          | _ -> None)
+       | _ -> None) in
+    let refused : 'p. 'p fam -> bool = fun f ->
+      (match (f.poll1 d TEof).Poll.rr_res with Some (Err _) -> true | _ -> false) in
+    let is_refused = if fam = "v3" then refused (fam3 prof) else refused (fam5 prof) in
+    let body = if fam = "v3" then retained (fam3 prof) else retained (fam5 prof) in
+    let presume =
+      if not is_refused then "-" else
+      match body with
+      | None -> "lost"
+      | Some buf ->
+        (match VarInt.decode_raw_header TEof d with
+         | RErr _ | RPanic _ -> "-"
+         | ROk ((b, rl), _) ->
+           (match Types.protocol_decode TEof buf with
+            | RErr e -> "err " ^ serr e | RPanic _ -> "PANIC"
+            | ROk (pr, rest2) ->
+              (match pr with
+               | V500 ->
+                 (match M5.header_new_with b rl with
+                  | Ok h -> (match M5.connect_decode_with_protocol h pr TEof rest2 with
+                      | ROk (c, _) -> "ok v5 " ^ show5 (M5.Connect c)
+                      | RErr e -> "err " ^ serr e | RPanic _ -> "PANIC")
+                  | Err e -> "err " ^ serr e | Panic _ -> "PANIC")
+               | _ ->
+                 (match M3.connect_decode_with_protocol pr TEof rest2 with
+                  | ROk (c, _) -> "ok v3 " ^ show3 (M3.Connect c)
+                  | RErr e -> "err " ^ serr e | RPanic _ -> "PANIC")))) in
+    Printf.sprintf "%s;resume=%s;rused=%s;wrong=%s;presume=%s" first (fst resume) (snd resume) wrong presume
   | "digest" ->
     let fam = next t in
     let d = hex t in
